@@ -423,6 +423,30 @@ func ruleGL3(c *Ctx) *rule {
 		} else {
 			r.bad(key, c.ipos(gw.call), "the file system walked is not os.DirFS(SpokFile.Dir) (calls: "+join(fres.callNames())+"; fields: "+join(fres.fieldKeys())+")")
 		}
+		// options: nothing that filters what the walk reports
+		if args := gw.call.Common().Args; len(args) > 3 {
+			key = fname(gw.fn) + " GlobWalk options"
+			os := c.newSlicer()
+			os.depth = 0
+			ores := os.run(args[3:]...)
+			filtering, unknown := "", ""
+			for _, n := range ores.callNames() {
+				switch {
+				case strings.HasSuffix(n, "doublestar/v4.WithFilesOnly"):
+					filtering = n
+				case strings.Contains(n, "doublestar/v4.With"):
+					unknown = n
+				}
+			}
+			switch {
+			case filtering != "":
+				r.bad(key, c.ipos(gw.call), "the walk is run with "+filtering+": matching directories are never reported, so a pattern no longer denotes every entry it matches")
+			case unknown != "":
+				r.undecided(key, c.ipos(gw.call), "the walk is run with the option "+unknown+", whose effect on the reported matches this rule does not know")
+			default:
+				r.ok(key, c.ipos(gw.call), "no option that filters matches")
+			}
+		}
 		// pattern: value-preserving back to the parameter, then to elements of the glob fields
 		key = fname(gw.fn) + " GlobWalk pattern"
 		pat := gw.call.Common().Args[1]
@@ -561,6 +585,8 @@ func ruleGL3(c *Ctx) *rule {
 					r.bad(key, c.ipos(mu), "what is remembered for the pattern is not the expansion itself but something derived from it (filtered, merged or de-duplicated against other patterns): the pattern no longer denotes every file it matches")
 				case !samePlace(mu.Key, gw.call.Common().Args[1]):
 					r.bad(key, c.ipos(mu), "the expansion is stored under a key that is not the expanded pattern")
+				case c.sliceMutation(mu.Value, 2, map[ssa.Value]bool{}, "the recorded expansion") != "":
+					r.bad(key, c.ipos(mu), c.sliceMutation(mu.Value, 2, map[ssa.Value]bool{}, "the recorded expansion")+": what is remembered for the pattern is no longer the list of files it matches")
 				default:
 					r.ok(key, c.ipos(mu), "the expansion itself, stored under the pattern that was expanded")
 				}
